@@ -74,12 +74,30 @@ abbrev Path := List PE
 /-- `&pathElement{strconv.Itoa(n), kind}` -/
 def PE.nat (k : PK) (n : Nat) : PE := ⟨k, toString n⟩
 
-/-- a `px.Type` the describer can hold that is not a Variant built by a merge: a lattice term, or one of the two members of
-    RichData that the term language does not have -/
+/-- a Callable without a block type (what a block type itself is): parameter tuple (types, given size) and return type, lattice terms;
+    its assignability and its description are modelled in DescribeCallable.lean -/
+structure CT0 where
+  params : Option (List Ty × Option Rng)
+  ret : Option Ty
+  deriving Repr, Inhabited
+
+/-- a block type: `Optional[Callable[…]]` (true) or `Callable[…]` -/
+abbrev Blk := Bool × CT0
+
+/-- `*types.CallableType {paramsType, returnType, blockType}` -/
+structure CT where
+  params : Option (List Ty × Option Rng)
+  ret : Option Ty
+  block : Option Blk
+  deriving Repr, Inhabited
+
+/-- a `px.Type` the describer can hold that is not a Variant built by a merge: a lattice term, one of the two members of
+    RichData that the term language does not have, or a Callable / Optional[Callable] (the block types of signatures) -/
 inductive Atom where
   | ty (t : Ty)
   | typeSet
   | deferred
+  | callable (opt : Bool) (c : CT)
   deriving Repr, Inhabited
 
 /-- the `expectedType` of a type mismatch: a type as given (`atom`), or the Variant `mergeMismatch` built (`merged`) -/
@@ -104,6 +122,7 @@ inductive Mismatch where
   | extraneousKey (p : Path) (key : String)
   | unresolvedTypeReference (p : Path) (key : String)
   | typeMismatch (p : Path) (expected : Exp) (actual : Ty)
+  | typeMismatchC (p : Path) (expected : Exp) (actual : Bool × CT)     -- a typeMismatch whose actual type is (Optional of) a Callable
   | patternMismatch (p : Path) (expected : Ty) (actual : Ty)
   | sizeMismatch (p : Path) (expected actual : Rng)
   | countMismatch (p : Path) (expected actual : Rng)
@@ -121,13 +140,14 @@ def Mismatch.cls : Mismatch → Cls
   | .extraneousKey _ _ => .extraneousKey
   | .unresolvedTypeReference _ _ => .unresolvedTypeReference
   | .typeMismatch _ _ _ => .type
+  | .typeMismatchC _ _ _ => .type
   | .patternMismatch _ _ _ => .pattern
   | .sizeMismatch _ _ _ => .size
   | .countMismatch _ _ _ => .count
 
 def Mismatch.path : Mismatch → Path
   | .unexpectedBlock p | .missingRequiredBlock p | .missingKey p _ | .extraneousKey p _ | .unresolvedTypeReference p _
-  | .typeMismatch p _ _ | .patternMismatch p _ _ | .sizeMismatch p _ _ | .countMismatch p _ _ => p
+  | .typeMismatch p _ _ | .typeMismatchC p _ _ | .patternMismatch p _ _ | .sizeMismatch p _ _ | .countMismatch p _ _ => p
 
 /-- `withPath` -/
 def Mismatch.setPath (m : Mismatch) (q : Path) : Mismatch :=
@@ -138,6 +158,7 @@ def Mismatch.setPath (m : Mismatch) (q : Path) : Mismatch :=
   | .extraneousKey _ k => .extraneousKey q k
   | .unresolvedTypeReference _ k => .unresolvedTypeReference q k
   | .typeMismatch _ e a => .typeMismatch q e a
+  | .typeMismatchC _ e a => .typeMismatchC q e a
   | .patternMismatch _ e a => .patternMismatch q e a
   | .sizeMismatch _ e a => .sizeMismatch q e a
   | .countMismatch _ e a => .countMismatch q e a
@@ -177,13 +198,14 @@ where allO : List Ty → Bool
 def Atom.accepts (cfg : Cfg) (sfh : Bool) (x : Atom) (a : Ty) : Bool :=
   match x with
   | .ty t => asg cfg sfh t a
-  | .typeSet | .deferred => asgOpaque cfg sfh a
+  | .typeSet | .deferred | .callable _ _ => asgOpaque cfg sfh a    -- (a Callable is never a member the Variant loop meets)
 
-/-- `r.Equals(t, nil)` -/
+/-- `r.Equals(t, nil)` (CallableType.Equals answers true for ANY two Callables) -/
 def atomEq : Atom → Atom → Bool
   | .ty a, .ty b => tyEq a b
   | .typeSet, .typeSet => true
   | .deferred, .deferred => true
+  | .callable o _, .callable o' _ => o == o'
   | _, _ => false
 
 /-- `types.UniqueTypes`: first occurrence wins, compared with `Equals` (the earlier member is the receiver) -/
@@ -213,7 +235,11 @@ def mergeMismatch (m o : Mismatch) : Mismatch :=
   match m with
   | .typeMismatch p et a =>
       (match o with
-       | .typeMismatch _ ot _ => .typeMismatch p (mergeExp et ot) a
+       | .typeMismatch _ ot _ | .typeMismatchC _ ot _ => .typeMismatch p (mergeExp et ot) a
+       | _ => m)
+  | .typeMismatchC p et a =>
+      (match o with
+       | .typeMismatch _ ot _ | .typeMismatchC _ ot _ => .typeMismatchC p (mergeExp et ot) a
        | _ => m)
   | .sizeMismatch p e a =>
       (match o with
